@@ -14,9 +14,10 @@ VERIF = os.path.dirname(HERE)
 def _reexec():
     want = {"PYTHONPATH": os.environ.get("FV_REPO", "/repo") + "/Lib", "PYTHONHASHSEED": "0",
             "PYTHONDONTWRITEBYTECODE": "1", "SOURCE_DATE_EPOCH": "1700000000"}
-    if any(os.environ.get(k) != v for k, v in want.items()):
-        env = dict(os.environ); env.update(want)
-        os.execve(sys.executable, [sys.executable] + sys.argv, env)
+    exe = "/venv/bin/python" if os.path.exists("/venv/bin/python") else sys.executable
+    if any(os.environ.get(k) != v for k, v in want.items()) or os.path.realpath(sys.executable) != os.path.realpath(exe) and os.environ.get("FV_REEXEC") != "1":
+        env = dict(os.environ); env.update(want); env["FV_REEXEC"] = "1"
+        os.execve(exe, [exe] + sys.argv, env)
 _reexec()
 sys.path.insert(0, HERE)
 sys.setrecursionlimit(20000)
@@ -190,7 +191,9 @@ def main():
     try:
         sweeps = mod.sweeps(tier if not broke else "search", rng.fork("sweeps")) if hasattr(mod, "sweeps") else []
     except Exception:
+        # fail closed: a check whose oracles cannot even be constructed has shown nothing
         traceback.print_exc(); notes.append("sweeps() raised: " + traceback.format_exc()[-800:])
+        oracle_fail.append({"sweep": "sweeps()", "case": None, "failure": "sweep harness exception: " + traceback.format_exc()[-800:]})
     sweep_stats = {}
     for s in sweeps:
         n = 0; nf = 0
